@@ -138,6 +138,15 @@ def extra_configs(prop, tier, seed):
                               min_depth=2, max_depth=6, n_agents=20, n_terminals=2,
                               n_iter=2, box='wide', lb=[0.0] * nv, ub=[10.0] * nv, objective='sphere',
                               hyper={'p_reproduction': 0.0, 'p_mutation': 0.0 if j % 2 else 0.3, 'p_crossover': 0.0, 'prunning_ratio': 0.0}))
+    if prop in ('C12', 'C02'):
+        # an objective that is NaN on part of the box: individuals whose fitness is NaN are never the best, and the best tree is
+        # the tree of the agent that became best; without selection operators such runs complete (cf. K4)
+        for j, c in enumerate([c for c in runlevel.gen_configs('thorough', seed + 83) if c['kind'] == 'GP'][:10 if tier == 'quick' else 40]):
+            nv = c['n_vars']
+            extra.append(dict(c, hook='observer', functions=['SUM', 'SUB', 'MUL'], min_depth=1, max_depth=3, n_agents=[4, 6, 10][j % 3],
+                              n_terminals=3, n_iter=2, box='wide', lb=[-4.0] * nv, ub=[6.0] * nv, objective='nanpart', adv=0.0,
+                              store_best_only=False,
+                              hyper={'p_reproduction': 0.0, 'p_mutation': 0.0, 'p_crossover': 0.0, 'prunning_ratio': 0.0}))
     if prop in ('C01', 'C02'):
         # rare sites: GP best on the boundary, ABC scout, BHA double exchange
         rng = _random.Random(seed * 17 + 3)
@@ -163,6 +172,31 @@ def extra_configs(prop, tier, seed):
             for c in [c for c in pool if c['kind'] == kind][:2 if tier == 'quick' else 8]:
                 c = dict(c, hook='observer', adv=0.3, n_iter=max(c['n_iter'], 4), box='intlb', objective=rng.choice(['outside', 'boundary', 'sphere']))
                 c['lb'], c['ub'] = runlevel.make_box(rng, 'intlb', c['n_vars'])
+                extra.append(c)
+    if prop in ('C01', 'C06', 'C20'):
+        # per-variable boxes that differ by less than any fixed tolerance (tiny scale; far from the origin), and one tiny
+        # box, for the optimizers that clip their trial solutions through the agents' own bounds
+        rng = _random.Random(seed * 71 + 47)
+        pool = [c for c in runlevel.gen_configs('thorough', seed + 201) if c['space'] in ('search', 'tree')]
+        for kind in ['ABC', 'SA', 'FPA', 'HS', 'IHS', 'CS', 'BA', 'BHA', 'GP']:
+            for j_, c in enumerate([c for c in pool if c['kind'] == kind][:3 if tier == 'quick' else 9]):
+                box = ['tinyscale', 'farscale', 'tinybox', 'nearequal'][j_ % 4] if kind != 'GP' else ['tinyscale', 'tinybox'][j_ % 2]
+                nv = max(c['n_vars'], 2)
+                c = dict(c, hook='observer', adv=0.0 if prop == 'C20' else 0.3, n_iter=max(c['n_iter'], 6), n_vars=nv, box=box,
+                         n_agents=max(c['n_agents'], 5), objective='sphere', hyper={}, store_best_only=False)
+                c['lb'], c['ub'] = runlevel.make_box(rng, box, nv)
+                extra.append(c)
+    if prop == 'C01':
+        # the recorded task resumes on a space whose earlier task was interrupted by its hook in the middle of an iteration
+        rng = _random.Random(seed * 73 + 51)
+        pool = [c for c in runlevel.gen_configs('thorough', seed + 211) if c['kind'] != 'GP']
+        for kind in ['FA', 'GSA', 'HC', 'PSO', 'AIWPSO', 'RPSO', 'SCA', 'WCA', 'ABC', 'CS']:
+            for c in [c for c in pool if c['kind'] == kind and c['objective'] not in ('view0', 'view00', 'fmax')][:2 if tier == 'quick' else 8]:
+                box = rng.choice(['unit', 'offset', 'narrow'])
+                c = dict(c, hook='observer', adv=0.0, n_iter=max(c['n_iter'], 3), n_agents=max(c['n_agents'], 5), box=box, hyper={},
+                         objective='positive' if kind == 'WCA' else rng.choice(['sphere', 'outside', 'boundary']),
+                         prior=dict(same_space=True, abort_at=rng.choice([1, 2, 3])))
+                c['lb'], c['ub'] = runlevel.make_box(rng, box, c['n_vars'])
                 extra.append(c)
     if prop in ('C01', 'C07', 'C02', 'C20', 'C15'):
         # the same optimizer object runs another task first (other box, more variables, fewer iterations): what it
@@ -274,7 +308,8 @@ def extra_configs(prop, tier, seed):
         # optimizers whose loop does arithmetic on the iteration count (schedules): iteration counts at which a rounded
         # quotient / arange length / product goes wrong by one ulp or one element
         pool = runlevel.gen_configs('thorough', seed + 171)
-        counts = {'IHS': [49, 98, 103, 107, 196], 'WCA': [3, 6, 12, 24, 41, 48, 53], 'FA': [7, 49, 98], 'SA': [7, 49], 'AIWPSO': [7, 49]}
+        counts = {'IHS': [49, 98, 103, 107, 196], 'WCA': [3, 6, 12, 24, 41, 48, 53], 'FA': [7, 49, 98], 'SA': [7, 49], 'AIWPSO': [7, 49],
+                  'SCA': [49, 98, 103, 107, 196]}
         for kind, ns in counts.items():
             base = next((c for c in pool if c['kind'] == kind and c['space'] == 'search'), None)
             if base is None:
@@ -282,6 +317,17 @@ def extra_configs(prop, tier, seed):
             for n_ in (ns if tier == 'thorough' else ns[:3] if kind in ('IHS', 'WCA') else ns[:1]):
                 extra.append(dict(base, hook='observer', adv=0.0, n_iter=n_, n_agents=3 if kind != 'WCA' else 4, n_vars=1, n_dims=1,
                                   lb=[-2.0], ub=[3.0], box='wide', objective='positive', hyper={}, store_best_only=(n_ % 2 == 0)))
+    if prop in ('C03', 'C15'):
+        # IHS schedules whose end point is the end of a validated range (PAR_max = 1): pairs (PAR_min, n_iterations) at which a
+        # quotient multiplied back rounds one ulp beyond it
+        pool = runlevel.gen_configs('thorough', seed + 172)
+        base = next((c for c in pool if c['kind'] == 'IHS' and c['space'] == 'search'), None)
+        pairs = [(0.08, 3), (0.08, 6), (0.1, 7), (0.2, 11), (0.1, 14), (0.08, 12)]
+        if tier == 'thorough':
+            pairs = [(pm, n_) for pm in (0.08, 0.1, 0.11, 0.19, 0.2, 0.23) for n_ in range(2, 46)]
+        for pm, n_ in pairs if base is not None else []:
+            extra.append(dict(base, hook='observer', adv=0.0, n_iter=n_, n_agents=3, n_vars=1, n_dims=1, lb=[-2.0], ub=[3.0], box='wide',
+                              objective='positive', hyper={'PAR_min': pm, 'PAR_max': 1.0}, store_best_only=True))
     if prop == 'C15':
         # AIWPSO whose initial inertia weight lies outside [w_min, w_max] on swarms that never succeed (one particle, flat
         # objective): the first adaptation step brings w into the range whatever the success count
@@ -365,6 +411,26 @@ def extra_configs(prop, tier, seed):
                     c['objective'] = rng.choice(['sphere', 'rastrigin', 'boundary', 'outside'])
                     c['box'] = 'wide'
                     c['lb'], c['ub'] = runlevel.make_box(rng, 'wide', c['n_vars'])
+                extra.append(c)
+    if prop == 'C07':
+        # sweeps in which no agent gets a finite value (+inf penalties everywhere / on most of the box), small populations: whatever
+        # the optimizer falls back on, nothing shares storage with anything else
+        pool = [c for c in runlevel.gen_configs('thorough', seed + 231) if c['space'] == 'search']
+        for kind in ('HC', 'BHA', 'SCA', 'FA', 'SA', 'GSA'):
+            for j_, c in enumerate([c for c in pool if c['kind'] == kind][:2 if tier == 'quick' else 6]):
+                extra.append(dict(c, hook='observer', adv=0.0, n_iter=3, n_agents=[1, 3, 2][j_ % 3], box='wide', lb=[-4.0] * c['n_vars'],
+                                  ub=[6.0] * c['n_vars'], objective=['allinf', 'infpen'][j_ % 2], hyper={}, store_best_only=False))
+    if prop in ('C20', 'C07'):
+        # large colonies / populations (rules that scale with the population size — a share of scouts, of nests abandoned, of
+        # harmonies — only differ from 'one' from a certain size on), with exhaustion reached quickly
+        rng = _random.Random(seed * 79 + 53)
+        pool = [c for c in runlevel.gen_configs('thorough', seed + 221) if c['space'] == 'search']
+        for kind in ('ABC', 'CS', 'FPA', 'HS', 'IHS', 'PSO'):
+            for j_, c in enumerate([c for c in pool if c['kind'] == kind][:2 if tier == 'quick' else 6]):
+                nv = max(c['n_vars'], 2)
+                c = dict(c, hook='observer', adv=0.0, n_iter=12, n_agents=[24, 40][j_ % 2], n_vars=nv, box='wide', objective=['rastrigin', 'sphere'][j_ % 2],
+                         hyper={'n_trials': 1 + j_ % 3} if kind == 'ABC' else {}, store_best_only=False)
+                c['lb'], c['ub'] = runlevel.make_box(rng, 'wide', nv)
                 extra.append(c)
     if prop == 'C20':
         # greedy kinds on objectives whose unconstrained optimum lies outside the box: a trial accepted on an
